@@ -186,9 +186,11 @@ func GenLink(ctrl, floats bool) *rapid.Generator[MLink] {
 var hexID = rapid.StringMatching(`[0-9a-f]{64}`)
 
 // GenRuleText draws a syntactically valid artifact rule with arbitrary operand text.
-func GenRuleText(ctrl bool) *rapid.Generator[[]string] {
+func GenRuleText(ctrl bool) *rapid.Generator[[]string] { return GenRuleTextS(GenString(ctrl)) }
+
+// GenRuleTextS is GenRuleText over an arbitrary operand text generator.
+func GenRuleTextS(s *rapid.Generator[string]) *rapid.Generator[[]string] {
 	return rapid.Custom(func(t *rapid.T) []string {
-		s := GenString(ctrl)
 		kw := func(k string) string {
 			switch rapid.IntRange(0, 2).Draw(t, "case") {
 			case 0:
@@ -213,7 +215,9 @@ func GenRuleText(ctrl bool) *rapid.Generator[[]string] {
 	})
 }
 
-func GenRuleList(ctrl bool) *rapid.Generator[[][]string] {
+func GenRuleList(ctrl bool) *rapid.Generator[[][]string] { return GenRuleListS(GenString(ctrl)) }
+
+func GenRuleListS(s *rapid.Generator[string]) *rapid.Generator[[][]string] {
 	return rapid.Custom(func(t *rapid.T) [][]string {
 		switch rapid.IntRange(0, 5).Draw(t, "ruleskind") {
 		case 0:
@@ -221,13 +225,14 @@ func GenRuleList(ctrl bool) *rapid.Generator[[][]string] {
 		case 1:
 			return [][]string{}
 		}
-		return rapid.SliceOfN(GenRuleText(ctrl), 1, 3).Draw(t, "rules")
+		return rapid.SliceOfN(GenRuleTextS(s), 1, 3).Draw(t, "rules")
 	})
 }
 
-func GenConstraint(ctrl bool) *rapid.Generator[MConstraint] {
+func GenConstraint(ctrl bool) *rapid.Generator[MConstraint] { return GenConstraintS(GenString(ctrl)) }
+
+func GenConstraintS(s *rapid.Generator[string]) *rapid.Generator[MConstraint] {
 	return rapid.Custom(func(t *rapid.T) MConstraint {
-		s := GenString(ctrl)
 		return MConstraint{
 			CommonName:    s.Draw(t, "cn"),
 			DNSNames:      GenStrList(s, 2).Draw(t, "dns"),
@@ -284,9 +289,11 @@ func GenExpires() *rapid.Generator[string] {
 
 // GenFormatLayout draws a layout whose texts are arbitrary; it satisfies the format rules
 // (unique non-empty names, hexadecimal ids, well-formed rules) when valid=true.
-func GenFormatLayout(ctrl bool) *rapid.Generator[MLayout] {
+func GenFormatLayout(ctrl bool) *rapid.Generator[MLayout] { return GenFormatLayoutS(GenString(ctrl)) }
+
+// GenFormatLayoutS is GenFormatLayout over an arbitrary text generator.
+func GenFormatLayoutS(s *rapid.Generator[string]) *rapid.Generator[MLayout] {
 	return rapid.Custom(func(t *rapid.T) MLayout {
-		s := GenString(ctrl)
 		names := map[string]bool{}
 		name := func(label string) string {
 			for i := 0; ; i++ {
@@ -317,7 +324,7 @@ func GenFormatLayout(ctrl bool) *rapid.Generator[MLayout] {
 			n := rapid.IntRange(1, 3).Draw(t, "nsteps")
 			for i := 0; i < n; i++ {
 				st := MStep{Type: "step", Name: name("stepname"),
-					ExpMat: GenRuleList(ctrl).Draw(t, "expmat"), ExpProd: GenRuleList(ctrl).Draw(t, "expprod"),
+					ExpMat: GenRuleListS(s).Draw(t, "expmat"), ExpProd: GenRuleListS(s).Draw(t, "expprod"),
 					PubKeys:    GenStrList(hexID, 3).Draw(t, "pubkeys"),
 					ExpCommand: GenStrList(s, 3).Draw(t, "expcmd"),
 					Threshold:  rapid.IntRange(-2, 5).Draw(t, "threshold"),
@@ -328,7 +335,7 @@ func GenFormatLayout(ctrl bool) *rapid.Generator[MLayout] {
 				case 1:
 					st.Constraints = []MConstraint{}
 				default:
-					st.Constraints = rapid.SliceOfN(GenConstraint(ctrl), 1, 2).Draw(t, "constraints")
+					st.Constraints = rapid.SliceOfN(GenConstraintS(s), 1, 2).Draw(t, "constraints")
 				}
 				lay.Steps = append(lay.Steps, st)
 			}
@@ -342,7 +349,7 @@ func GenFormatLayout(ctrl bool) *rapid.Generator[MLayout] {
 			n := rapid.IntRange(1, 2).Draw(t, "ninsp")
 			for i := 0; i < n; i++ {
 				lay.Inspect = append(lay.Inspect, MInspection{Type: "inspection", Name: name("inspname"),
-					ExpMat: GenRuleList(ctrl).Draw(t, "iexpmat"), ExpProd: GenRuleList(ctrl).Draw(t, "iexpprod"),
+					ExpMat: GenRuleListS(s).Draw(t, "iexpmat"), ExpProd: GenRuleListS(s).Draw(t, "iexpprod"),
 					Run: GenStrList(s, 3).Draw(t, "run")})
 			}
 		}
